@@ -31,8 +31,8 @@ Definition cm_spec_activate_lits : list Z := [0; 1; 0; 1; 0].
 Definition cm_spec_activate_ops : list Z :=
   [tk_land; tk_eql; tk_addr; tk_not; tk_eql; tk_addr; tk_neg; tk_addr; tk_gtr; tk_addr; tk_addr; tk_neg; tk_addr].
 
-(* deactivate: !isActive ; <-stopAck ; Store(&ttl, ttl) *)
-Definition cm_spec_deactivate_ops : list Z := [tk_not; tk_recv; tk_addr].
+(* deactivate: !isActive ; (under the mutex, fix 047ccad) !isActive ; <-stopAck ; Store(&ttl, ttl) *)
+Definition cm_spec_deactivate_ops : list Z := [tk_not; tk_not; tk_recv; tk_addr].
 
 (* Manager.handler: three receives (stopSyn, inChnl, ticker), !successful && !retry *)
 Definition cm_spec_handler_ops : list Z := [tk_recv; tk_recv; tk_recv; tk_land; tk_not; tk_not].
